@@ -114,6 +114,9 @@ def gen_csr_leaf(rng, dw, max_aw):
         regs = []
         for i in range(rng.randint(1, 3)):
             regs.append([rng.choice([1, dw - 1, dw, dw + 3, 2 * dw]), rng.choice(["rw", "rw", "r", "w"]), None])
+        # wide enough for the registers at their natural alignment (generation only)
+        need = sum(2 * (1 << max(0, (-(-w // dw) - 1).bit_length())) for w, _, _ in regs)
+        aw = max(aw, (need - 1).bit_length())
         return {"t": "bridge", "aw": aw, "regs": regs}, aw
     if k < 0.85:
         n = rng.choice([1, 3, dw + 1, 2 * dw + 1])
@@ -125,6 +128,9 @@ def gen_csr_leaf(rng, dw, max_aw):
     return {"t": "gpio", "pins": pins, "aw": 4}, 4
 
 
+_WIN = [0]
+
+
 def gen_csr_tree(rng, dw, depth, max_aw):
     """-> (node, aw)"""
     if depth == 0 or rng.random() < 0.25:
@@ -134,9 +140,10 @@ def gen_csr_tree(rng, dw, depth, max_aw):
     align = rng.choice([0, 0, 1, 2])
     for i in range(rng.randint(1, 3)):
         sub, saw = gen_csr_tree(rng, dw, depth - 1, max_aw - 1)
-        children.append({"node": sub, "name": rng.choice([None, f"w{i}"]), "addr": None,
+        _WIN[0] += 1          # window names unique over the whole hierarchy (anonymous decoders absorb their children's names)
+        children.append({"node": sub, "name": rng.choice([None, f"w{_WIN[0]}"]), "addr": None,
                          "align_to": rng.choice([None, None, saw + 1])})
-        total += 2 << max(saw, align)
+        total += 2 << max(saw, align, children[-1]["align_to"] or 0)
     aw = max(total - 1, 1).bit_length() + rng.randint(0, 1)
     # anonymous siblings with identical register names would collide: name all but one
     anon = 0
@@ -150,6 +157,7 @@ def gen_csr_tree(rng, dw, depth, max_aw):
 
 def csr_configs(tier, seed, salt=0):
     rng = random.Random(seed * 7 + salt)
+    _WIN[0] = 0
     cfgs = [
         {"dw": 8, "root": {"t": "dec", "aw": 8, "align": 0, "children": [
             {"node": {"t": "bridge", "aw": 2, "regs": [[9, "rw", None]]}, "name": "b3", "addr": None},
@@ -163,8 +171,10 @@ def csr_configs(tier, seed, salt=0):
         {"dw": 16, "root": {"t": "dec", "aw": 7, "align": 0, "children": [
             {"node": {"t": "evmon", "n": 33, "align": 0}, "name": "irq", "addr": None},
             {"node": {"t": "gpio", "pins": 3, "aw": 4}, "name": "gpio", "addr": None},
-            {"node": {"t": "bridge", "aw": 3, "regs": [[40, "rw", 8], [3, "w", None]]}, "name": None, "addr": 0x40}]}},
+            {"node": {"t": "bridge", "aw": 4, "regs": [[40, "rw", 8], [3, "w", None]]}, "name": None, "addr": 0x40}]}},
     ]
+    for c in cfgs:
+        c["directed"] = True          # hand-written hierarchies are valid by construction: a refusal is a violation (must_accept)
     n = 12 if tier == "quick" else 300
     for _ in range(n):
         dw = rng.choice([8, 8, 16, 32])
@@ -197,6 +207,8 @@ def wb_configs(tier, seed):
     cfgs.append({"aw": 3, "dw": 16, "g": 8, "align": 0, "children": [
         {"t": "sram", "size": 4, "name": "ram"},
         {"t": "csr", "node": {"t": "bridge", "aw": 1, "regs": [[8, "rw", None], [8, "r", None]]}, "name": None}]})
+    for c in cfgs:
+        c["directed"] = True
     n = 6 if tier == "quick" else 150
     for _ in range(n):
         dw, g = rng.choice([(8, 8), (16, 8), (32, 8), (32, 16), (16, 16), (32, 32)])
